@@ -3,6 +3,7 @@
 import json, glob, os, re
 VERIF = os.path.dirname(os.path.dirname(os.path.abspath(__file__)))
 rows = ["| id | change (still passes the 365 tests) | needs | first quick run | now | caught by |", "|---|---|---|---|---|---|"]
+rounds = {}
 n = caught = first = 0
 for p in sorted(glob.glob(os.path.join(VERIF, "seeded", "*", "meta.json"))):
     m = json.load(open(p))
@@ -10,13 +11,16 @@ for p in sorted(glob.glob(os.path.join(VERIF, "seeded", "*", "meta.json"))):
     fr = m.get("first_run", {})
     f_ok = any(v == 1 for v in fr.values())
     first += f_ok
+    rd = rounds.setdefault(m.get("round", 1), [0, 0, 0])
+    rd[0] += 1; rd[1] += f_ok; rd[2] += bool(m.get("detected_by"))
     now = m.get("detected_by", [])
     caught += bool(now)
     how = m.get("caught_by", "")
     rows.append("| %s | %s | %s | %s | %s | %s |" % (m["id"], m.get("change", ""), m.get("needs", ""), "caught" if f_ok else "missed",
                                                  "caught" if now else "MISSED", how))
 rows.append("")
-rows.append("First run: %d of %d caught; now: %d of %d." % (first, n, caught, n))
+rows.append("First run: %d of %d caught; now: %d of %d.  " % (first, n, caught, n) +
+            "; ".join("round %s: %d changes, %d caught at the first run, %d now" % (k, v[0], v[1], v[2]) for k, v in sorted(rounds.items())))
 path = os.path.join(VERIF, "DESIGN.md")
 s = open(path).read()
 s = re.sub(r"<!-- BEGIN:seeded -->.*<!-- END:seeded -->", "<!-- BEGIN:seeded -->\n" + "\n".join(rows) + "\n<!-- END:seeded -->", s, flags=re.S)
